@@ -549,6 +549,11 @@ class Ctx:
         if any(not isinstance(st, (ast.Assign, ast.AnnAssign)) for st in body[:-1]) or len(body) > 8:
             return None
         params = [a.arg for a in h.node.args.args]
+        # a helper that re-binds one of its own parameters (`matrix = np.expand_dims(matrix, ..)`) is not "body + return of the arguments":
+        # substituting the call's arguments for the parameters would drop that statement -- do not look through it
+        rebound = {t.id for st in body[:-1] for t in ast.walk(st.targets[0] if isinstance(st, ast.Assign) else st.target) if isinstance(t, ast.Name)}
+        if rebound & set(params):
+            return None
         deco = {ast.unparse(d) for d in h.node.decorator_list}
         if skip_first and "staticmethod" not in deco and params:
             params = params[1:]
